@@ -203,7 +203,12 @@ def main(argv=None):
     if a.only:
         contracts = [c for c in contracts if a.only in c.name]
     opts = {'timeout_ms': 30000 if a.tier == 'quick' else 120000}
-    tl = [('contract', c.name, opts) for c in contracts]
+    tl = []
+    for c in contracts:
+        if c.shards > 1:
+            tl.extend(('contract', c.name, dict(opts, shard=(k, c.shards), budget_s=1500)) for k in range(c.shards))
+        else:
+            tl.append(('contract', c.name, opts))
     for (mod, fn, shards) in cfg.get('bounded', []):
         n = shards[a.tier] if isinstance(shards, dict) else shards
         for s in range(n):
@@ -212,7 +217,20 @@ def main(argv=None):
     with cf.ProcessPoolExecutor(max_workers=a.jobs) as pool:
         for r in pool.map(tasks.run_task, tl, chunksize=1):
             results.append(r)
-    cres = [r for r in results if r['kind'] == 'contract']
+    cres_raw = [r for r in results if r['kind'] == 'contract']
+    merged = {}
+    for r in cres_raw:
+        if r['name'] not in merged:
+            merged[r['name']] = r
+        else:
+            m = merged[r['name']]
+            m['obligations'] = m['obligations'] + r['obligations']
+            m['errors'] = m['errors'] + r['errors']
+            m['paths'] += r['paths']
+            m['secs'] = max(m['secs'], r['secs'])
+            m['inlined'] = sorted(set(m['inlined']) | set(r['inlined']))
+            m['models_used'] = sorted(set(m.get('models_used', [])) | set(r.get('models_used', [])))
+    cres = list(merged.values())
     bres = [r for r in results if r['kind'] == 'bounded']
     # ---- collect
     findings = known_mod.load()
